@@ -8,9 +8,15 @@ stops the loop — and of the bit loop of `unpackSubfieldsByBitmap`, rendered fr
 -/
 import Iso8583.Gen.GuardsTlv
 import Iso8583.Model.Field
+import Iso8583.Lemmas.GuardTactics
 
 namespace Iso8583.GuardsTlv
 open Iso8583 Iso8583.Gen.Guards
+
+theorem tlv_loops_iff (offset dlen : Nat) (fl rd st : Int) (k s : Bool) :
+    (tlv_unpackSubfieldsByTag_loops offset dlen fl rd st k s).all id = true ↔ offset < dlen := by
+  unfold tlv_unpackSubfieldsByTag_loops
+  cases k <;> cases s <;> guards_to_prop <;> guards_done
 
 /-- the loop ends exactly when the source's condition `offset < len(data)` fails -/
 theorem tlv_loop_end_translated (t : TagSpec) (enc : Enc) (isBer : Bool) (known : Tag → Bool)
@@ -18,51 +24,77 @@ theorem tlv_loop_end_translated (t : TagSpec) (enc : Enc) (isBer : Bool) (known 
     (acc : List (Tag × Value)) (fl rd st : Int) (k s : Bool)
     (h : (tlv_unpackSubfieldsByTag_loops offset data.length fl rd st k s).all id = false) :
     tlvLoop t enc isBer known dispatch (fuel + 1) data offset acc = .ok (acc, offset) := by
-  simp only [tlv_unpackSubfieldsByTag_loops, List.all_cons, List.all_nil, id, Bool.and_true,
-    decide_eq_false_iff_not] at h
+  have hn : ¬ (offset < data.length) := by
+    intro hlt
+    have := (tlv_loops_iff offset data.length fl rd st k s).mpr hlt
+    simp [h] at this
   have : offset ≥ data.length := by omega
   simp [tlvLoop, this]
 
 /-- is unknown-tag skipping in force (`skipUnknownTLVTags()`) -/
 def skipping (t : TagSpec) (isBer : Bool) : Bool := t.skipUnknown && (isBer || t.prefUnknown.isSome)
 
-/-- an unknown tag without skipping is the error that names the tag: the source's second
-condition -/
+/-- all error conditions of one iteration, as one proposition (over `Int`; `offset` is the offset
+after the tag was read, `start` the offset before): an unknown tag without skipping; a skipped
+element whose announced length overruns the composite; a known element after which the offset has
+not moved -/
+theorem tlv_guards_iff (offset dlen fieldLength read start : Int) (known skip : Bool) :
+    (tlv_unpackSubfieldsByTag_guards offset dlen fieldLength read start known skip).any id = true ↔
+      ((known = false ∧ skip = false) ∨
+       (known = false ∧ skip = true ∧ (fieldLength < 0 ∨ fieldLength > dlen - offset - read)) ∨
+       (known = true ∧ offset = start)) := by
+  unfold tlv_unpackSubfieldsByTag_guards
+  cases known <;> cases skip <;> guards_to_prop <;> guards_done
+
+/-- an unknown tag without skipping is the error that names the tag -/
 theorem tlv_unknown_translated (t : TagSpec) (enc : Enc) (isBer : Bool) (known : Tag → Bool)
     (dispatch : Tag → Bytes → UR (Value × Nat)) (fuel : Nat) (data : Bytes) (offset : Nat)
     (acc : List (Tag × Value)) (tagBytes : Bytes) (read : Nat)
     (hcont : ¬ offset ≥ data.length)
     (hd : Enc.decode enc (data.drop offset) t.len = .ok (tagBytes, read))
+    (hk : known (t.pad.unpad tagBytes) = false) (hs : skipping t isBer = false)
     (fl rd st : Int)
-    (hg : (tlv_unpackSubfieldsByTag_guards (offset + read : Nat) data.length fl rd st
-            (known (t.pad.unpad tagBytes)) (skipping t isBer)).getD 1 false = true) :
+    (_hg : (tlv_unpackSubfieldsByTag_guards (offset + read : Nat) data.length fl rd st
+            (known (t.pad.unpad tagBytes)) (skipping t isBer)).any id = true) :
     tlvLoop t enc isBer known dispatch (fuel + 1) data offset acc = .err [t.pad.unpad tagBytes] := by
-  simp only [tlv_unpackSubfieldsByTag_guards, List.getD_cons_succ, List.getD_cons_zero, Bool.and_eq_true,
-    Bool.not_eq_true'] at hg
-  obtain ⟨hk, hs⟩ := hg
   unfold skipping at hs
   simp [tlvLoop, hcont, hd, hk, hs]
 
+/-- … and the source's conditions say so: unknown and not skipping makes the list true -/
+theorem tlv_unknown_is_guard (offset dlen fl rd st : Int) :
+    (tlv_unpackSubfieldsByTag_guards offset dlen fl rd st false false).any id = true :=
+  (tlv_guards_iff _ _ _ _ _ _ _).mpr (Or.inl ⟨rfl, rfl⟩)
+
 /-- a skipped unknown element whose announced length overruns the composite is rejected: the
-source's first condition (over `Int`; the model's second disjunct is the case in which Go's
-`len(data)-offset-read` is negative) -/
+source's condition over `Int` is the model's over `Nat` (its second disjunct is the case in which
+Go's `len(data)-offset-read` is negative) -/
 theorem tlv_skip_bound_translated (dlen offset read fieldLength : Nat) :
-    ((tlv_unpackSubfieldsByTag_guards offset dlen fieldLength read 0 false true).getD 0 false = true) ↔
+    ((tlv_unpackSubfieldsByTag_guards offset dlen fieldLength read (-1) false true).any id = true) ↔
       (fieldLength > dlen - offset - read ∨ offset + read > dlen) := by
-  simp only [tlv_unpackSubfieldsByTag_guards, List.getD_cons_zero, Bool.not_false, Bool.and_self, Bool.true_and,
-    Bool.or_eq_true, decide_eq_true_eq]
-  omega
+  rw [tlv_guards_iff]
+  constructor
+  · rintro (⟨_, h⟩ | ⟨_, _, h⟩ | ⟨h, _⟩)
+    · cases h
+    · omega
+    · cases h
+  · intro h
+    exact Or.inr (Or.inl ⟨rfl, rfl, by omega⟩)
 
-/-- an element that consumed neither tag nor value bytes stops the loop: the source's third
-condition `offset == start` after `offset = start + read + read'` -/
+/-- an element that consumed neither tag nor value bytes stops the loop: the source's condition
+`offset == start` after `offset = start + read + read'` -/
 theorem tlv_no_progress_translated (start read read' : Nat) :
-    ((tlv_unpackSubfieldsByTag_guards (start + read + read' : Nat) 0 0 0 start true true).getD 2 false = true) ↔
+    ((tlv_unpackSubfieldsByTag_guards (start + read + read' : Nat) 0 0 0 start true true).any id = true) ↔
       (read = 0 ∧ read' = 0) := by
-  simp only [tlv_unpackSubfieldsByTag_guards, List.getD_cons_succ, List.getD_cons_zero, Bool.not_true, Bool.not_false,
-    Bool.and_self, Bool.true_and, decide_eq_true_eq]
-  omega
+  rw [tlv_guards_iff]
+  constructor
+  · rintro (⟨h, _⟩ | ⟨h, _⟩ | ⟨_, h⟩)
+    · cases h
+    · cases h
+    · omega
+  · intro h
+    exact Or.inr (Or.inr ⟨rfl, by omega⟩)
 
-/-- the model's step uses exactly these two conditions -/
+/-- the model's step uses exactly the skip bound -/
 theorem tlv_step_uses_bound (t : TagSpec) (enc : Enc) (isBer : Bool) (known : Tag → Bool)
     (dispatch : Tag → Bytes → UR (Value × Nat)) (fuel : Nat) (data : Bytes) (offset : Nat)
     (acc : List (Tag × Value)) (tagBytes : Bytes) (read fieldLength rd : Nat) (p : Pref)
@@ -71,7 +103,7 @@ theorem tlv_step_uses_bound (t : TagSpec) (enc : Enc) (isBer : Bool) (known : Ta
     (hk : known (t.pad.unpad tagBytes) = false) (hs : skipping t isBer = true)
     (hp : t.prefUnknown = some p) (hoff : ¬ offset + read > data.length)
     (hl : p.decodeLength maxInt (data.drop (offset + read)) = .ok (fieldLength, rd))
-    (hg : (tlv_unpackSubfieldsByTag_guards (offset + read : Nat) data.length fieldLength rd 0 false true).getD 0 false = true) :
+    (hg : (tlv_unpackSubfieldsByTag_guards (offset + read : Nat) data.length fieldLength rd (-1) false true).any id = true) :
     tlvLoop t enc isBer known dispatch (fuel + 1) data offset acc = .err [t.pad.unpad tagBytes] := by
   have hb := (tlv_skip_bound_translated data.length (offset + read) rd fieldLength).mp hg
   unfold skipping at hs
@@ -83,8 +115,13 @@ theorem tlv_step_uses_bound (t : TagSpec) (enc : Enc) (isBer : Bool) (known : Ta
 /-- `for i := 1; i <= Len; i++`: the model scans `Len` bit numbers starting at 1 -/
 theorem bitmap_loop_bound_translated (bmLen i : Nat) (hi : 1 ≤ i) (s f : Bool) :
     (bitmapped_unpackSubfieldsByBitmap_loops i bmLen s f).all id = true ↔ i < 1 + bmLen := by
-  simp only [bitmapped_unpackSubfieldsByBitmap_loops, List.all_cons, List.all_nil, id, Bool.and_true, decide_eq_true_eq]
-  omega
+  unfold bitmapped_unpackSubfieldsByBitmap_loops
+  cases s <;> cases f <;> guards_to_prop <;> guards_done
+
+theorem bitmap_guards_iff (i bmLen : Int) (s f : Bool) :
+    (bitmapped_unpackSubfieldsByBitmap_guards i bmLen s f).any id = true ↔ (s = true ∧ f = false) := by
+  unfold bitmapped_unpackSubfieldsByBitmap_guards
+  cases s <;> cases f <;> guards_to_prop <;> guards_done
 
 /-- a set bit without a subfield definition is the error that names the bit -/
 theorem bitmap_scan_guard_translated (bm : Bitmap) (dispatch : Tag → Bytes → Option (UR (Value × Nat)))
@@ -92,9 +129,12 @@ theorem bitmap_scan_guard_translated (bm : Bitmap) (dispatch : Tag → Bytes →
     (h : (bitmapped_unpackSubfieldsByBitmap_guards i bm.len (bm.isSet i)
             (dispatch (natToDec i) (data.drop off)).isSome).any id = true) :
     bitmapScan bm dispatch (n + 1) i data off acc = .err [natToDec i] := by
-  simp only [bitmapped_unpackSubfieldsByBitmap_guards, List.any_cons, List.any_nil, id, Bool.or_false,
-    Bool.and_eq_true, Bool.not_eq_true', Option.isSome_eq_false_iff, Option.isNone_iff_eq_none] at h
-  simp [bitmapScan, h.1, hoff, h.2]
+  obtain ⟨hs, hf⟩ := (bitmap_guards_iff _ _ _ _).mp h
+  have hnone : dispatch (natToDec i) (data.drop off) = none := by
+    cases hl : dispatch (natToDec i) (data.drop off) with
+    | none => rfl
+    | some v => simp [hl] at hf
+  simp [bitmapScan, hs, hoff, hnone]
 
 example : (tlv_unpackSubfieldsByTag_loops 5 5 0 0 0 true true).all id = false ∧
     (tlv_unpackSubfieldsByTag_loops 4 5 0 0 0 true true).all id = true := by decide
